@@ -571,3 +571,17 @@ Definition blk6_outcome (units : list Z) (t : terms) (a : blk6) : list Z :=
       | Ok a' => [0; dig (c_blk6 a'); if list_eqb (c_blk6 a') (c_blk6 a) then 1 else 0]
       end ++ [if blk6_wf units a then 1 else 0]
   end.
+
+(* ---- Stage 3: LayerInfoBlock ('Lr16' / 'Lr32'), the body of a LayerInfo (Psd/LrBlockProofs.v) *)
+From PsdV Require Import Psd.LrBlockProofs.
+Definition lrblock_outcome (a : Z * Z * layer_info) : list Z :=
+  let '(v, pad, li) := a in
+  match write_lr_block enc v pad li with
+  | Err e => [err_code e]
+  | Ok (b, n) =>
+      [0; n; dig b] ++
+      match read_lr_block dec v b with
+      | Err e => [err_code e]
+      | Ok li' => [0; dig (c_li li'); if list_eqb (c_li li') (c_li (li_update li)) then 1 else 0]
+      end ++ [if wf_lr_block enc dec li then 1 else 0]
+  end.
